@@ -313,7 +313,53 @@ def placeholders_section(ctx):
             ctx.corr_mismatch(case, "Gallina add_placeholders / pen_components (Interp/Placeholders.v) differ from OutlineTTFCompiler")
 
 
+def per_master_filter_section(ctx):
+    """masters whose libs name the SAME filter (one that has an interpolatable form) with DIFFERENT include / exclude lists:
+    master 0 asks for composite B only, master 1 for B and C.  Whatever is decomposed must be decomposed in every master."""
+    import ufo2ft
+    KEY = "com.github.googlei18n.ufo2ft.filters"
+    rng = ctx.subrng("per-master-filter")
+    for i in range(ctx.budget(12, 48)):
+        lib = ["ufoLib2", "defcon"][i % 2]
+        fname = ["decomposeComponents", "decomposeTransformedComponents", "flattenComponents"][(i // 2) % 3]
+        pre = (i // 6) % 2 == 1
+        how = ["include", "exclude"][(i // 12) % 2]
+        fn = ["compileInterpolatableTTFs", "compileInterpolatableTTFsFromDS", "compileVariableTTF"][i % 3]
+        tr = (Fr(1), Fr(0), Fr(0), Fr(1)) if fname != "decomposeTransformedComponents" else (Fr(3, 4), Fr(0), Fr(0), Fr(3, 4))
+
+        def master(k):
+            d = 40 * k
+            A = {"name": "A", "unicodes": [0x41], "width": Fr(500 + d), "components": [], "anchors": [],
+                 "contours": [[(Fr(0), Fr(0), "line"), (Fr(200 + d), Fr(0), "line"), (Fr(200 + d), Fr(300 + rng.randint(-9, 9)), "line"),
+                               (Fr(0), Fr(300 + d), "line")]]}
+            comp = lambda nm, base, cp, dx: {"name": nm, "unicodes": [cp], "width": Fr(500 + d), "contours": [], "anchors": [],
+                                             "components": [(base, tr + (Fr(dx + d), Fr(rng.randint(0, 9))))]}
+            gl = [A, comp("B", "A", 0x42, 10), comp("C", "A", 0x43, 20), comp("D", "B", 0x44, 30), comp("E", "C", 0x45, 40)]
+            lists = [["B"], ["B", "C"], ["B", "C", "E"]] if how == "include" else [["A", "C", "D", "E"], ["A", "D", "E"], ["A", "D"]]
+            return {"glyphs": gl, "glyphOrder": list("ABCDE"), "kerning": {}, "groups": {},
+                    "lib": {KEY: [{"name": fname, "pre": pre, how: lists[k]}]},
+                    "info": {"familyName": "Fam", "styleName": "Master%d" % k, "unitsPerEm": 1000, "ascender": 800, "descender": -200}}
+        masters = [master(k) for k in range(2 + (i // 3) % 2)]
+        ds, fonts = dsgen.make_designspace(rng, masters, lib)
+        case = {"function": fn, "lib": lib, "variant": "lib filter %s (pre=%s) with per-master %s lists" % (fname, pre, how),
+                "filters": [m["lib"][KEY] for m in masters], "font": jsonable(masters[0]), "last_master": jsonable(masters[-1])}
+        ctx.count(); ctx.klass("%s/per-master %s of %s%s" % (fn, how, fname, "/pre" if pre else "")); ctx.nontriv(("pmf", i, ctx.scale))
+        try:
+            if fn == "compileInterpolatableTTFs":
+                out = list(ufo2ft.compileInterpolatableTTFs(fonts))
+            elif fn == "compileInterpolatableTTFsFromDS":
+                out = [sd.font for sd in ufo2ft.compileInterpolatableTTFsFromDS(ds).sources]
+            else:
+                ufo2ft.compileVariableTTF(ds)
+                continue
+        except Exception as e:
+            ctx.spec_failure(case, "%s raised %s: %s\n%s" % (fn, type(e).__name__, e, traceback.format_exc()[-1000:]))
+            continue
+        compare_masters(ctx, case, out)
+
+
 def explore(ctx):
+    per_master_filter_section(ctx)
     placeholders_section(ctx)
     nonmatching_section(ctx)
     import ufo2ft
